@@ -749,6 +749,28 @@ Definition new_pool (c : config) (genesis : block) : pool :=
   let p := mkPool c (price_limit c) [] (mkNoncer [] []) 0 (cfg_locals c) [] [] [] [] 1 [genesis] false false in
   reset p None (b_hdr genesis).
 
+(* ---- scheduleReorgLoop: merging of requests ------------------------------- *)
+(* While a runReorg is in flight the scheduler folds the requests that arrive
+   into ONE pending request: the reset keeps the old head of the first request
+   and takes the new head of the last one (head events arrive in order, the last
+   is the chain's head); the dirty-account sets are united.  The next run gets
+   that merged request. *)
+Inductive req :=
+| RReset (old : option hdr) (new : hdr)     (* requestReset(oldHead, newHead) *)
+| RPromote (dirty : list N).                (* requestPromoteExecutables(set) *)
+Record sched := mkSched { s_reset : option (option hdr * hdr); s_dirty : option (list N) }.
+Definition sched_merge (s : sched) (r : req) : sched :=
+  match r with
+  | RReset old new =>
+    mkSched (match s_reset s with None => Some (old, new) | Some (o, _) => Some (o, new) end) (s_dirty s)
+  | RPromote d =>
+    mkSched (s_reset s) (match s_dirty s with None => Some d | Some d0 => Some (d0 ++ d) end)
+  end.
+Definition merge_all (rs : list req) : sched := fold_left sched_merge rs (mkSched None None).
+(* the run the scheduler launches for the merged request *)
+Definition run_merged (p : pool) (rs : list req) (ord : list N) : pool :=
+  run_reorg p (s_reset (merge_all rs)) (s_dirty (merge_all rs)) ord.
+
 (* ---- operations ---------------------------------------------------------- *)
 Inductive op :=
 | OBlock (b : block)                                  (* the chain learns a block (no pool code runs) *)
@@ -850,32 +872,42 @@ Definition with_ord (o : op) (ord : list N) : op :=
   | _ => o
   end.
 
+(* One recorded step = the critical sections that ran between two observations
+   (normally one; a coalesced burst is: the submissions made while the lock was
+   held, the run that was in flight, the merged run), and the observation. *)
 Record case := mkCase {
   c_cfg : config;
   c_naccts : nat;
   c_genesis : block;
-  c_steps : list (op * obs)
+  c_steps : list (list op * obs)
 }.
+
+Fixpoint steps_seq (p : pool) (os : list op) : pool * out :=
+  match os with
+  | [] => (p, OutNone)
+  | [o] => step p o
+  | o :: r => steps_seq (fst (step p o)) r
+  end.
+Definition has_ord (o : op) : bool :=
+  match o with OAdd _ _ _ | OReorg _ _ _ => true | _ => false end.
 
 (* runs the steps; at each step the model (with the recorded priority list, or
    failing that with some other one) must reproduce the observation.
    Result: None = agreement, Some i = first disagreeing step *)
-Fixpoint run_steps (n : nat) (p : pool) (l : list (op * obs)) (i : N) : option N :=
+Fixpoint run_steps (n : nat) (p : pool) (l : list (list op * obs)) (i : N) : option N :=
   match l with
   | [] => None
-  | (o, ob) :: r =>
-    let try := fun o' => let '(p', ou) := step p o' in
-                         if obs_eqb (view p' n ou) ob then Some p' else None in
+  | (os, ob) :: r =>
+    let try := fun os' => let '(p', ou) := steps_seq p os' in
+                          if obs_eqb (view p' n ou) ob then Some p' else None in
     let found :=
-      match try o with
+      match try os with
       | Some p' => Some p'
       | None =>
-        match o with
-        | OAdd _ _ _ | OReorg _ _ _ =>
-          fold_left (fun acc ord => match acc with Some _ => acc | None => try (with_ord o ord) end)
+        if existsb has_ord os then
+          fold_left (fun acc ord => match acc with Some _ => acc | None => try (map (fun o => with_ord o ord) os) end)
                     (perms (seqN 0 n)) None
-        | _ => None
-        end
+        else None
       end in
     match found with
     | Some p' => run_steps n p' r (i + 1)
